@@ -481,10 +481,22 @@ write_callable_info (const gchar    *namespace,
 
   xml_end_element (file, "return-value");
 
-  if (g_callable_info_get_n_args (info) <= 0)
+  if (g_callable_info_get_n_args (info) <= 0 &&
+      g_callable_info_get_instance_ownership_transfer (info) == GI_TRANSFER_NOTHING)
     return;
 
   xml_start_element (file, "parameters");
+
+  /* The typelib keeps neither the name nor the type of the instance parameter,
+   * only whether the callee takes ownership of the instance. */
+  if (g_callable_info_get_instance_ownership_transfer (info) != GI_TRANSFER_NOTHING)
+    {
+      xml_start_element (file, "instance-parameter");
+      xml_printf (file, " name=\"self\"");
+      write_ownership_transfer (g_callable_info_get_instance_ownership_transfer (info), file);
+      xml_end_element (file, "instance-parameter");
+    }
+
   for (i = 0; i < g_callable_info_get_n_args (info); i++)
     {
       GIArgInfo *arg = g_callable_info_get_arg (info, i);
